@@ -155,6 +155,26 @@ def state_case(rep, spec, index):
     st, curve2 = _guard(lambda: pv.ideal_diffusion_curve(T, [xm, x], tp, pp, prec, model))
     if st == "ok":
         curve_metrics(rep, dict(case, curve_basis="molar+weight"), curve2)
+        if index % 3 == 0:
+            # the user corrects a row of the returned curve in place (a mistyped flux) and appends a point: the derived
+            # quantities of that same object must follow its fluxes
+            f0 = pair(curve2.partial_fluxes[0])
+            a, b = rng.uniform(0.2, 5.0), rng.uniform(0.2, 5.0)
+            editable = isinstance(curve2.partial_fluxes, list) and isinstance(curve2.feed_compositions, list) and isinstance(curve2.permeances, list)
+            if editable:
+                curve2.partial_fluxes[0] = (f0[0] * a, f0[1] * b)
+                if index % 2 == 0:
+                    curve2.partial_fluxes.append((f0[0] * b, f0[1] * a))
+                    curve2.feed_compositions.append(curve2.feed_compositions[0])
+                    curve2.permeances.append(curve2.permeances[0])
+                ce = dict(case, curve_basis="molar+weight", flux_rows_edited_in_place=[a, b], point_appended=index % 2 == 0)
+                try:
+                    curve_metrics(rep, ce, curve2)
+                    rep.require("derived quantities of a curve can still be read after its flux rows were edited in place", True, ce)
+                except Exception as e:
+                    rep.require("derived quantities of a curve can still be read after its flux rows were edited in place", False, ce, {"error": repr(e)})
+            else:
+                rep.count("curve_rows_not_editable")
     if rng.random() < 0.25:
         try:
             edit_then_compare(rep, case, fc, rng, T, x, tp, pp, prec, model)
